@@ -43,6 +43,10 @@ CHECKS = {
    technique="bounded-exhaustive byte-string enumeration (all strings <=3 octets; seeds x every offset x all 256 values; all marked-field pairs x boundary values; every truncation) through the real decoders and receive-path code, panic hook + overflow checks on",
    text="Every network-facing decoder plus the code its receive path runs on the decoded value (handle_pkt, option logging, reply framing; DNS accessors used by listener, cache and upstream-result paths; LLDP TLV logging) is run on the whole enumerated input set; any panic/overflow/out-of-bounds is a violation; afterwards each handler must still answer a valid request.",
    note="In-process; the LLDP 14-octet frame skip and socket loops are not executed. Log statements are formatted (trace logger installed)."),
+ "C17": dict(level="exploration", engine="E-ENUM", design="5/C17",
+   technique="bounded-exhaustive enumeration of interface configurations (full product inside each option group x top-level defaults x 3 base contexts) through the real YAML loader, builder and serialiser, decoded by an independent RFC 4861/8106/8781/8910 decoder and compared with expected(config)",
+   text="Every configuration of the grammar is loaded by the real loader, built and serialised by the real code and decoded by an independent decoder that enforces 8-octet alignment, zero reserved fields and zero prefix bits beyond the length; decoded values must equal what the configuration means, unrepresentable values may only be rejected or clamped.",
+   note="The hook verif_build repeats the two small matches of build_announcement that pick mtu/lifetime from netinfo; RA emission on the wire is not executed. Default RDNSS/DNSSL lifetimes are don't-care."),
 }
 
 NOT_YET = {
